@@ -29,6 +29,7 @@ func runC04(c *Ctx, r *Report) {
 	c04Rand(c, r)
 	c04MapOrder(c, r)
 	c04StateShadow(c, r)
+	c04HandleOwnership(c, r)
 }
 
 // ---- R04.2 -------------------------------------------------------------------
@@ -1089,4 +1090,107 @@ func storedToFieldOnPath(b *ssa.BasicBlock, recv ssa.Value, fld int, val ssa.Val
 		b = b.Preds[0]
 	}
 	return false
+}
+
+// ---- R04.12 ------------------------------------------------------------------
+// A handle a function hands to its caller is closed by the caller only: a
+// goroutine started by the same function that also closes it races with the
+// caller's reads/writes (what is still buffered when it fires is lost).
+func c04HandleOwnership(c *Ctx, r *Report) {
+	r.Rule("R04.12", "one closer per handle: no function both returns a handle (a value with a Close method) to its caller and starts a goroutine that closes that same handle — the goroutine's timing would decide how much the caller can still read or write")
+	n := 0
+	for _, fn := range c.ModuleFunctions() {
+		if fn.Pkg != nil && strings.Contains(fn.Pkg.Pkg.Path(), "/pkg/terminals") {
+			continue
+		}
+		// values returned
+		returned := map[ssa.Value]bool{}
+		for _, b := range fn.Blocks {
+			if ret, ok := b.Instrs[len(b.Instrs)-1].(*ssa.Return); ok {
+				for _, res := range ret.Results {
+					v := res
+					for i := 0; i < 4; i++ {
+						switch x := v.(type) {
+						case *ssa.MakeInterface:
+							v = x.X
+						case *ssa.ChangeInterface:
+							v = x.X
+						}
+					}
+					returned[v] = true
+				}
+			}
+		}
+		for _, b := range fn.Blocks {
+			for _, in := range b.Instrs {
+				g, ok := in.(*ssa.Go)
+				if !ok {
+					continue
+				}
+				var gf *ssa.Function
+				bind := map[ssa.Value]ssa.Value{} // goroutine-side value → creator-side value
+				switch v := g.Call.Value.(type) {
+				case *ssa.MakeClosure:
+					gf, _ = v.Fn.(*ssa.Function)
+					if gf != nil {
+						for i, fv := range gf.FreeVars {
+							if i < len(v.Bindings) {
+								bind[fv] = v.Bindings[i]
+							}
+						}
+					}
+				case *ssa.Function:
+					gf = v
+				}
+				if gf == nil || gf.Blocks == nil {
+					continue
+				}
+				for i, p := range gf.Params {
+					if i < len(g.Call.Args) {
+						bind[p] = g.Call.Args[i]
+					}
+				}
+				n++
+				key := fmt.Sprintf("%s: goroutine #%d", SSAName(fn), n)
+				bad := ""
+				for _, gb := range gf.Blocks {
+					for _, gin := range gb.Instrs {
+						call, ok := gin.(ssa.CallInstruction)
+						if !ok {
+							continue
+						}
+						com := call.Common()
+						isClose := (com.IsInvoke() && com.Method.Name() == "Close") || strings.HasSuffix(CalleeName(com), ".Close")
+						if !isClose {
+							continue
+						}
+						var recv ssa.Value
+						if com.IsInvoke() {
+							recv = com.Value
+						} else if len(com.Args) > 0 {
+							recv = com.Args[0]
+						}
+						// a captured variable is a cell: look at what the creator stored in it
+						if ld, ok := recv.(*ssa.UnOp); ok && ld.Op == token.MUL {
+							if outer, ok := bind[ld.X]; ok {
+								if al, ok := outer.(*ssa.Alloc); ok {
+									for _, ref := range *al.Referrers() {
+										if st, ok := ref.(*ssa.Store); ok && st.Addr == al && returned[st.Val] {
+											bad = c.Rel(gin.Pos())
+										}
+									}
+								}
+							}
+						}
+						if outer, ok := bind[recv]; ok && returned[outer] {
+							bad = c.Rel(gin.Pos())
+						}
+					}
+				}
+				r.Check(bad == "", "R04.12", key, c.Rel(g.Pos()), "closes nothing the creator returns",
+					fmt.Sprintf("%s returns a handle to its caller and also starts a goroutine that closes it (%s): whatever the caller has not read or written when the goroutine fires is lost, so the output depends on scheduling", SSAName(fn), bad))
+			}
+		}
+	}
+	r.Floor("R04.12", "goroutines started by module functions", n, 10)
 }
